@@ -105,6 +105,14 @@ def run_check(mod, pid, tier, seed, t0):
             if not ok:
                 broken.append(('proof', t, "axioms/availability: %s" % ax))
                 say("[B] obligation %s not discharged: %s" % (t, ax))
+    # thorough tier: independent re-check of the compiled property module(s) by leanchecker
+    recheck = None
+    if okB and tier == 'thorough':
+        pr = core.run(['lake', 'env', 'leanchecker', module] + extra, cwd=core.LEAN_DIR, timeout=3000)
+        recheck = (pr.returncode == 0)
+        say("[B] leanchecker %s: %s" % (" ".join([module] + extra), "ok" if recheck else "FAILED: " + (pr.stdout + pr.stderr)[-400:]))
+        if not recheck:
+            broken.append(('proof', 'leanchecker', (pr.stdout + pr.stderr)[-800:]))
     discharged = sum(1 for t in theorems if aud.get(t, (False,))[0])
     say("[B] %d/%d theorems built and audited (axioms within %s)" % (discharged, len(theorems), sorted(core.STD_AXIOMS)))
     # ---- C: correspondence
@@ -188,6 +196,7 @@ def run_check(mod, pid, tier, seed, t0):
             theorems=[dict(name=t, ok=aud.get(t, (False, []))[0], axioms=aud.get(t, (False, []))[1]) for t in theorems],
             partial=getattr(mod, 'PARTIAL', {}),
             tables_regenerated=okA,
+            leanchecker=recheck,
             correspondence=[r.summary() for r in layer_results],
             correspondence_cases=cases,
             lean_driver=dict(calls=ctx.lean.calls, lines=ctx.lean.lines, seconds=round(ctx.lean.time, 2)),
